@@ -31,19 +31,30 @@ def gen_span_query(rng):
 
     def term():
         return query.Term("t", rng.choice(VOCAB[:6]))
+
+    def child():
+        # a child whose matcher RESTRUCTURES on replace() (a union hands back the surviving branch once the other one is
+        # exhausted): the span wrapper is then rebuilt around the new child and must keep its own configuration
+        k = rng.random()
+        if k < 0.55:
+            return term()
+        rare = query.Term("t", rng.choice(VOCAB[6:] if len(VOCAB) > 6 else VOCAB))
+        if k < 0.85:
+            return query.Or([term(), rare] if rng.random() < 0.7 else [term(), term()])
+        return spans.SpanOr([term(), rare])
     r = rng.random()
     if r < 0.2:
-        return spans.SpanNear(term(), term(), slop=rng.randint(1, 3), ordered=rng.random() < 0.6)
+        return spans.SpanNear(child(), child(), slop=rng.randint(1, 3), ordered=rng.random() < 0.6)
     if r < 0.35:
-        return spans.SpanFirst(term(), limit=rng.randint(0, 2))
+        return spans.SpanFirst(child(), limit=rng.randint(0, 3))
     if r < 0.5:
         return spans.SpanOr([term(), term()])
     if r < 0.62:
-        return spans.SpanNot(term(), term())
+        return spans.SpanNot(child(), term())
     if r < 0.72:
-        return spans.SpanContains(spans.SpanNear(term(), term(), slop=3), term())
+        return spans.SpanContains(spans.SpanNear(term(), child(), slop=3), term())
     if r < 0.82:
-        return spans.SpanBefore(term(), term())
+        return spans.SpanBefore(child(), term())
     if r < 0.9:
         return spans.SpanNear2([term(), term(), term()], slop=rng.randint(1, 3), ordered=rng.random() < 0.5) \
             if hasattr(spans, "SpanNear2") else spans.SpanOr([term(), term()])
@@ -82,9 +93,9 @@ def one_query(ctx, rng, built, s, witness_base, mode="c11", q=None, expected=Non
     elif mode == "c12" and kind < 0.45:
         q = model.gen_skip_stress(rng)
         ctx.count(P + ".skip_stress_queries")
-    elif kind < 0.12:
+    elif kind < 0.17:
         q = gen_span_query(rng)
-    elif kind < 0.18 and witness_base.get("sortable"):
+    elif kind < 0.23 and witness_base.get("sortable"):
         q = gen_extra_query(rng)
     else:
         q = model.gen_query(rng, depth=rng.choice([1, 2, 2, 3]), scoring=True, boolean=(mode == "c11"))
